@@ -168,3 +168,16 @@ def test_ff8f3e5_reconfigure_nodes_drops_nodes_that_are_no_longer_advertised():
     c.reconfigure_nodes()
     assert sorted(c.hasher.nodes) == ["10.0.0.1:11212"]
     assert sorted(c.clients) == ["10.0.0.1:11212"]
+
+
+def test_82fdbce_aws_client_with_use_pooling_can_be_constructed_and_reconfigured():
+    # C19: configuration variant use_pooling=True
+    from pymemcache.client.base import PooledClient as _Pooled
+    from pymemcache.client.ext.aws_ec_client import AWSElastiCacheHashClient
+
+    body = b"2\nn0.cache.amazonaws.com|10.0.0.1|11212\n"
+    reply = b"CONFIG cluster 0 %d\r\n%s\r\nEND\r\n" % (len(body), body)
+    m = Module([reply], [reply])
+    c = AWSElastiCacheHashClient("ep.cfg.cache.amazonaws.com:11211", socket_module=m, use_pooling=True, max_pool_size=2)
+    c.reconfigure_nodes()
+    assert sorted(c.clients) == ["10.0.0.1:11212"] and isinstance(c.clients["10.0.0.1:11212"], _Pooled)
